@@ -800,8 +800,13 @@ func buildC12Tree(rng *hutil.Rng) *c11Tree {
 	}
 	t.forkK = 12
 	base := t.main[len(t.main)-1]
-	for _, c := range []string{"bad-pow", "diff+1", "cumdiff+1", "ts-before-parent", "ts-future", "otherchain-own", "otherchain-dup", "side-dup", "height+1", "height-1", "version"} {
+	// (no "ts-future": a block stamped 70 s ahead of the clock becomes acceptable while a slow run is still going)
+	for _, c := range []string{"bad-pow", "diff+1", "cumdiff+1", "ts-before-parent", "otherchain-own", "otherchain-dup", "side-dup", "height+1", "height-1", "version"} {
 		n := w.build(base, BlockSpec{TsDelta: 9000, Recipient: w.wallets[0].Addr, Sign: 1, Corrupt: c})
+		w.admit(n)
+		if n.Valid {
+			continue // the corruption did not apply to this block (e.g. no side block to duplicate): it is a good block
+		}
 		t.file.Invalid[c] = n.Raw
 	}
 	if tx := w.c11BadSigTx(base); tx != nil {
